@@ -104,6 +104,15 @@ fn gen_seq_request_any(rng: &mut Rng, k: usize, allow_malformed: bool, small: bo
     SeqReq { bytes, token, close: close && malformed.is_none(), malformed, shape: format!("{method}{tshape}h{nh}{}{bname}{}", if ctx { "c" } else { "" }, malformed.unwrap_or("")), head_len }
 }
 
+/// A long-lived connection: `n` well-formed requests none of which asks to close (a client that polls, a proxy's pooled connection).
+/// Anything per-connection that runs out, wraps or accumulates (request budgets, slot indices, buffers that only grow) needs this to show.
+pub fn gen_long_sequence(rng: &mut Rng, n: usize, small: bool) -> Vec<SeqReq> {
+    (0..n).map(|k| loop {
+        let r = gen_seq_request(rng, k, false, small);
+        if !r.close && r.bytes.len() < 600 { break r }
+    }).collect()
+}
+
 pub fn gen_sequence(rng: &mut Rng, max_len: usize, allow_malformed: bool, small: bool) -> Vec<SeqReq> {
     let n = rng.range(2.min(max_len), max_len);
     (0..n).map(|k| gen_seq_request(rng, k, allow_malformed, small)).collect()
@@ -167,7 +176,8 @@ fn step_norm(s: &Step) -> Step {
 }
 
 fn c05_case(rep: &mut Report, case: u64, router: &hook::Router, rng: &mut Rng, small: bool) {
-    let seq = if rng.chance(1, 6) { aligned_stale_sequence(rng) } else { gen_sequence(rng, if small { 4 } else { 12 }, true, small) };
+    let seq = if !small && case % 256 == 9 { rep.count("long_sequences"); let n = *rng.pick(&[101usize, 128, 130, 256, 260, 300, 520]); gen_long_sequence(rng, n, small) }
+        else if rng.chance(1, 6) { aligned_stale_sequence(rng) } else { gen_sequence(rng, if small { 4 } else { 12 }, true, small) };
     let script: Vec<Seg> = seq.iter().map(|r| Seg::Data(r.bytes.clone())).collect();
     let sess = web::session(router, script, End::Eof, seq.len() + 1, |_| {});
     let shape: String = seq.iter().map(|r| r.shape.clone()).collect::<Vec<_>>().join(">");
@@ -232,7 +242,9 @@ fn c05_case(rep: &mut Report, case: u64, router: &hook::Router, rng: &mut Rng, s
         // taint: nothing of any other request of the connection
         if let Some(b) = got.response() {
             for (j, o) in seq.iter().enumerate() {
-                if j != k {
+                // on long-lived connections the tokens of the first request, of the 8 requests before and of the 2 after are looked for
+                // (a leak travels through per-connection state, i.e. from an earlier request: all of them would make the check quadratic)
+                if j != k && (seq.len() <= 40 || j == 0 || (j < k && j + 8 >= k) || (j > k && j <= k + 2)) {
                     rep.count("taint_tokens_checked");
                     let hx = crate::rng::hex(o.token.as_bytes());
                     let plain = o.token.as_bytes();
@@ -504,7 +516,9 @@ fn c06_check(rep: &mut Report, case: u64, router: &hook::Router, seq: &[SeqReq],
     if let Ok(rs) = &got_resps {
         for (k, b) in rs.iter().enumerate() {
             for (j, o) in seq.iter().enumerate() {
-                if j != k {
+                // on long-lived connections the tokens of the first request, of the 8 requests before and of the 2 after are looked for
+                // (a leak travels through per-connection state, i.e. from an earlier request: all of them would make the check quadratic)
+                if j != k && (seq.len() <= 40 || j == 0 || (j < k && j + 8 >= k) || (j > k && j <= k + 2)) {
                     rep.count("taint_tokens_checked");
                     let hx = crate::rng::hex(o.token.as_bytes());
                     if b.windows(hx.len()).any(|w| w == hx.as_bytes()) {
